@@ -372,6 +372,93 @@ def impl_monitor_C14(text, impl_out):
     return fails
 
 
+
+# ------------------------------------------------------------------------------------------------
+# C15: Join / Separate and the inertial-parameter setters
+def gen_C15(seed, tier):
+    g = G.Gen(seed)
+    out, samples, sigs = [], [], set()
+    n = nmodels(tier, 60, 400)
+    # (1) Join / Separate on random pairs and relative poses
+    out.append("case c15join_0")
+    nj = nmodels(tier, 60, 400)
+    for k in range(nj):
+        a = g.body(massless=(k % 5 == 0))
+        if k % 5 == 0:
+            a[-1] = 0
+        b = g.body()
+        X = g.frame(0.1)
+        out.append("join %s %s %s" % (G.frs(a), G.frs(X), G.frs(b)))
+        out.append("joinsep %s %s %s" % (G.frs(a), G.frs(X), G.frs(b)))
+        g.stats["join:%s" % ("massless-first" if k % 5 == 0 else "generic")] += 1
+    # degenerate: joining a massless body does nothing; both massless is an error
+    z = g.body(massless=True); z[-1] = 0
+    out.append("join %s %s %s" % (G.frs(g.body()), G.frs(g.frame()), G.frs(z)))
+    out.append("join %s %s %s" % (G.frs(z), G.frs(g.frame()), G.frs([F(0)] * 4 + g.inertia() + [0])))
+    # (2) setters vs rebuilding
+    for i in range(n):
+        mb = G.random_model(g, max_joints=4, fixed_prob=0.6)
+        # targets: movable bodies without attachments, fixed bodies (any parent)
+        attached = set()
+        for fid in mb.fixed_ids:
+            pass
+        cand_fixed = list(mb.fixed_ids)
+        # movable bodies that never served as parent of a fixed body: find from lines
+        fixed_parents = set()
+        for l in mb.lines:
+            t = l.split()
+            if "Fixed" in t:
+                fixed_parents.add(int(t[1]))
+        # a fixed body whose parent chain reaches a movable body that also has attachments is fine
+        cand_mov = [b for b in mb.movable_real if b not in fixed_parents and not any(
+            (p in fixed_parents) for p in [b])]
+        # fixed bodies that are parents of other fixed bodies or of the base are still valid targets
+        targets = []
+        if cand_fixed:
+            targets.append(g.r.choice(cand_fixed))
+        if cand_mov and (not targets or g.r.random() < 0.6):
+            # only bodies whose line index is known
+            targets.append(g.r.choice(cand_mov))
+        if not targets:
+            continue
+        nset = g.r.randint(1, 3)
+        setlines = []
+        cur = {}
+        for _ in range(nset):
+            bid = g.r.choice(targets)
+            body = cur.get(bid, list(mb.body_ops[bid][2]))
+            which = g.r.choice(["mass", "com", "inertia", "params"])
+            if which == "mass":
+                body[0] = g.pos()
+                setlines.append("setmass %d %s" % (bid, G.fr(body[0])))
+            elif which == "com":
+                body[1:4] = g.vec(-1, 1)
+                setlines.append("setcom %d %s" % (bid, G.frs(body[1:4])))
+            elif which == "inertia":
+                body[4:13] = g.inertia()
+                setlines.append("setinertia %d %s" % (bid, G.frs(body[4:13])))
+            else:
+                body[0] = g.pos(); body[1:4] = g.vec(-1, 1); body[4:13] = g.inertia()
+                setlines.append("setparams %d %s %s %s" % (bid, G.fr(body[0]), G.frs(body[4:13]), G.frs(body[1:4])))
+            cur[bid] = body
+            g.stats["set:%s@%s" % (which, "fixed" if bid >= G.FIXED_DISC else "movable")] += 1
+        state = mb.state_lines() + [mb.fext_line(0.3)]
+        calls = ["call ID", "call CRBA 1", "call FD", "call COM 1"]
+        grav = "gravity %s" % G.frs(g.vec(-3, 3))
+        ca, cb = "c15setA_%d" % i, "c15setB_%d" % i
+        out.append("case " + ca); out.append(grav); out += mb.lines; out += setlines; out += state; out += calls
+        linesB = list(mb.lines)
+        for bid, body in cur.items():
+            idx, prefix, _, name = mb.body_ops[bid]
+            linesB[idx] = "%s %s %s" % (prefix, G.frs(body), name)
+        out.append("case " + cb); out.append(grav); out += linesB; out += state; out += calls
+        out.append("#twin %s %s" % (ca, cb))
+        sigs.add((tuple(mb.kinds), tuple(l.split()[0] for l in setlines)))
+        if len(samples) < 3:
+            samples.append({"case": ca, "setters": setlines, "joints": [list(k) for k in mb.kinds]})
+    return finish(g, out, samples, len(sigs) + nj)
+
+
 NOT_YET = {}
 
 COMMON_ASSUMPTIONS = ["double evaluation is compared with exact rational evaluation up to 1e-8*scale",
@@ -401,6 +488,10 @@ PROPS = {
             "rule": "random construction sequences of 2-9 calls (AddBody with every joint kind, AppendBody, AddBodyCustomJoint, fixed bodies on any parent, named / unnamed) with one failing call (duplicate name on the movable / fixed / multi-DoF / custom path, or an undefined joint type) injected at a random position; structural dump and all numeric parameters after every call; accessors and a dynamics call at the end; distinct = distinct op-kind sequences",
             "explanation": "monitor (direct, on the implementation's dump): well-formedness clauses after every call, rejected call leaves dump+parameters identical; correspondence: the Lean construction state machine reproduces every dump, returned id, error kind and accessor result exactly",
             "assumptions": ["parent ids passed to AddBody are valid ids (the library does not check them)"]},
+    "C15": {"gen": gen_C15,
+            "rule": "Join / Join-then-Separate on random body pairs and rational relative poses (every fifth pair with a massless first body); 1-3 setter calls (mass / com / inertia / all) on a movable body without attachments or on a fixed body (on movable, fixed or massless virtual parents), compared with a model built from scratch with the new parameters on InverseDynamics, CRBA, ForwardDynamics, CalcCenterOfMass; distinct = distinct (model shape, setter sequence) + number of body pairs",
+            "explanation": "monitor: rigid union from the definitions (parallel-axis theorem about the union's centre of mass); twin comparison setter-model vs rebuilt model on the implementation; correspondence with the Lean Body.join/separate and setter model",
+            "assumptions": COMMON_ASSUMPTIONS},
     "C12": {"gen": gen_C12, "rule": RULE_MODELS + "; random contact plane (unit normal, point off the origin)", "explanation": "monitor: definitions of mass, CoM, momentum, energies, ZMP on jets of the pose specification",
             "assumptions": COMMON_ASSUMPTIONS},
 }
